@@ -50,8 +50,25 @@ def check_basis_invariants(inp, which=("perm", "spg", "sum", "ortho", "compact")
     hooks = inp.get("hooks") or {}
     with Hooks(**hooks):
         for order in _orders(inp):
-            bs = _basis(inp, order) if not hooks else ph.basis_cls(order)(
-                cr.atoms(), cutoff=(inp.get("cutoff") or {}).get(str(order))).run()
+            if inp.get("explicit_ops") is not None:
+                # operations supplied by the caller: the same group, identity first, otherwise reordered
+                # (mode 0: shuffled; mode 1: rotation-major "for each point operation, for each lattice point")
+                rots, trans = ph.spg_ops(cr)
+                rs = np.random.default_rng(int(inp["explicit_ops"]))
+                idx = list(range(1, len(rots)))
+                if int(inp["explicit_ops"]) % 2 == 0:
+                    idx = [int(i) for i in rs.permutation(idx)]
+                else:
+                    idx.sort(key=lambda i: (rots[i].reshape(-1).tolist(), np.round(trans[i], 6).tolist()))
+                idx = [0] + idx
+                ok = np.array_equal(rots[0], np.eye(3, dtype=int)) and np.allclose(trans[0], 0)
+                ops = {"rotations": rots[idx], "translations": trans[idx]} if ok else None
+                bs = ph.basis_cls(order)(cr.atoms(), cutoff=(inp.get("cutoff") or {}).get(str(order)),
+                                         spacegroup_operations=ops).run()
+            elif hooks:
+                bs = ph.basis_cls(order)(cr.atoms(), cutoff=(inp.get("cutoff") or {}).get(str(order))).run()
+            else:
+                bs = _basis(inp, order)
             nb = bs.basis_set.shape[1]
             if nb == 0:
                 continue
@@ -719,6 +736,13 @@ def check_history(inp) -> list:
                 if cur is not None:
                     t.displacements, t.forces = datasets[cur]
                 s = t
+            elif kind == "foreign":
+                # basis sets built by an object with OTHER cutoffs are handed over; the receiver then recomputes
+                # the orders it is going to solve (compute_basis_set), which must restore its own configuration
+                donor = Symfc(cr.atoms(), cutoff={2: 30.0, 3: 31.0, 4: 32.0})
+                donor.compute_basis_set(orders=op[1])
+                s.basis_set = donor.basis_set
+                s.compute_basis_set(orders=op[1])
             elif kind == "solve":
                 orders, compact = op[1], op[2]
                 if cur is None or any(o not in s.basis_set for o in orders):
@@ -760,8 +784,12 @@ def gen_history_inputs(rng, n):
                 ops.append(("basis", rng.choice(combos[:3] if len(cr.numbers) > 3 else combos)))
             elif r < 0.4:
                 ops.append(("data", rng.randint(0, 1)))
-            elif r < 0.5:
+            elif r < 0.47:
                 ops.append(("handover",))
+            elif r < 0.6:
+                od = rng.choice(combos[:3] if len(cr.numbers) > 3 else combos)
+                ops.append(("foreign", od))
+                ops.append(("solve", od, rng.random() < 0.5))
             else:
                 ops.append(("solve", rng.choice(combos[:3] if len(cr.numbers) > 3 else combos), rng.random() < 0.5))
         yield {"crystal": cr, "ops": ops, "n_snap": 60, "data_seed": rng.randrange(10 ** 6)}
